@@ -31,6 +31,16 @@ func mustCompile(text string) (jp *jmespath.JMESPath, panicked bool, val string)
 	return
 }
 
+func parseOnly(text string) (err error) {
+	defer func() {
+		if r := recover(); r != nil {
+			err = fmt.Errorf("panic: %v", r)
+		}
+	}()
+	_, err = jmespath.NewParser().Parse(text)
+	return
+}
+
 func c17One(r *harness.Run, text string, c *c17Counts) {
 	atomic.AddInt64(&c.cases, 1)
 	in := map[string]interface{}{"expression": shorten(text, 200), "expression_quoted": fmt.Sprintf("%q", shorten(text, 200))}
@@ -81,6 +91,13 @@ func c17One(r *harness.Run, text string, c *c17Counts) {
 		if _, isPtr := err.(*jmespath.SyntaxError); isPtr {
 			bad("syntax-error-pointer", "SyntaxError value", "pointer")
 		}
+	}
+	// the other entry points must agree with Compile on acceptance (C04: "Compile (and therefore Search)")
+	if _, serr, spn := impl.SearchOnce(text, map[string]interface{}{"a": 1.0}); spn == nil && err != nil && serr == nil {
+		bad("search-accepts-what-compile-rejects", "jmespath.Search fails for an expression that Compile rejects ("+err.Error()+")", "Search returned a value and a nil error")
+	}
+	if perr := parseOnly(text); (perr != nil) != (err != nil) {
+		bad("parser-disagrees-with-compile", fmt.Sprintf("NewParser().Parse and Compile agree (Compile error: %v)", err), fmt.Sprintf("Parse error: %v", perr))
 	}
 	mjp, panicked, val := mustCompile(text)
 	if panicked != (err != nil) {
@@ -151,11 +168,12 @@ func checkC17(r *harness.Run) harness.Coverage {
 	})
 	// tokens that carry bytes the lexer passes through (invalid UTF-8, multi-byte runes, controls) combined
 	// with errors that only the parser detects: the SyntaxError must still carry the ORIGINAL text
-	carriers := []string{"'\xff\xfe'", "`\"\xff\"`", "\"\xff\"", "'é😀'", "\"日本\"", "'\x01'", "`\"\\u00e9\"`", "'a\\'b'", "a"}
-	suffixes := []string{" ]", ".", " a", "(", " ==", "[", "[?", " | ", ", b", " }", ")", " 'x'", "[0", ".*.", " &&"}
+	carriers := []string{"\"\xff\xff\xff\xff\"", "\"\xc3\xc3\xc3\"", "\ufeff'abc'", "'50%'", "\"%s\"", "a%d",
+		"'\xff\xfe'", "`\"\xff\"`", "\"\xff\"", "'é😀'", "\"日本\"", "'\x01'", "`\"\\u00e9\"`", "'a\\'b'", "a"}
+	suffixes := []string{"", "%v", " ]", ".", " a", "(", " ==", "[", "[?", " | ", ", b", " }", ")", " 'x'", "[0", ".*.", " &&"}
 	for _, ca := range carriers {
 		for _, su := range suffixes {
-			for _, pre := range []string{"", "foo[?bar==", "[", "a.", "!"} {
+			for _, pre := range []string{"", "foo[?bar==", "[", "a.", "!", "foo.{a: ", "\ufeff", "a "} {
 				c17One(r, pre+ca+su, &c)
 			}
 		}
